@@ -3,6 +3,7 @@
 From Coq Require Import List ZArith NArith Bool.
 From TarsV Require Import Gen.Consts Rpc.ReqId Rpc.ReqIdProofs Conc.Pending Conc.PendingProofs Conc.C08Corr Conc.C08Sys Conc.C08SysProofs.
 From TarsV Require Xlate.ReqIdEquiv.
+From TarsV Require Xlate.RecvEventsEquiv.
 Import ListNotations.
 Open Scope Z_scope.
 
@@ -155,6 +156,20 @@ Proof. exact (C08SysProofs.sys_registration_good maxi eq_refl). Qed.
 Theorem C08_sys_young_if_few : forall s, Z.of_nat (allocs s) < 2147483648 - 1 -> all_young s.
 Proof. exact C08SysProofs.young_if_few. Qed.
 
+(* ---- the CURRENT source of ServantProxy.TarsInvoke: the id on the wire is genRequestID's result ----
+   The request literal and the timeout statements after it are regenerated from tars/servant.go on every run
+   (Xlate/TarsInvokeEquiv.v): whatever the call kind, the per-call timeout, the caller's deadline - the request that leaves
+   TarsInvoke carries the id genRequestID returned (whose steps are Xlate/ReqIdEquiv.v), ITimeout is the effective timeout. *)
+From TarsV Require Import Xlate.GoSem Gen.Translated Xlate.TarsInvokeEquiv.
+Theorem C08_source_request_id : forall cType fn status ctx mtype name proxy_ms version id sbuf has_dl until ct,
+  int31 proxy_ms -> int31 (snd (fst ct)) -> int63 until ->
+  exists armed t req, go_tarsinvoke cType fn status ctx mtype name proxy_ms version id sbuf has_dl until ct = Next (armed, t, req) /\
+    go_requestf_RequestPacket_IRequestId req = id /\
+    go_requestf_RequestPacket_ITimeout req = eff_itimeout proxy_ms (per_call ct) (if has_dl then Some until else None) /\
+    t = eff_timeout proxy_ms (per_call ct) (if has_dl then Some until else None) /\
+    armed = (if has_dl then []%list else [t]%list).
+Proof. exact TarsInvokeEquiv.tarsinvoke_request_id. Qed.
+
 Print Assumptions C08_id_nonzero.
 Print Assumptions C08_id_distance.
 Print Assumptions C08_id_distance_tight.
@@ -178,3 +193,19 @@ Print Assumptions C08_outstanding_never_share_refuted.
 Print Assumptions C08_sys_no_foreign_reply.
 Print Assumptions C08_sys_registration_good.
 Print Assumptions C08_sys_young_if_few.
+Print Assumptions C08_source_request_id.
+(* ---- the CURRENT source of AdapterProxy.Recv is the model's lookup step ----
+   regenerated from tars/adapter.go on every run (Xlate/AdapterRecvEquiv.v): id 0 -> push callback, one-way -> dropped, else the
+   pending table is looked up BY THE PACKET'S ID and the packet offered to that entry's channel only (with a timer of
+   conf.ReadTimeout), nothing when there is no entry - the actions of the model's LLookup outcome. *)
+From TarsV Require Import Xlate.AdapterRecvEquiv.
+Theorem C08_source_recv_lookup : forall (p : packet) (t : list (Z * nat)) ptype read_timeout sel out,
+  (ptype =? k_basef_TARSONEWAY)%Z = p_oneway p ->
+  out_of (tr_adapter_Recv read_timeout (match lookup (p_id p) t with Some _ => true | None => false end) ptype (p_id p) sel out)
+  = Some (out ++ acts_of (lookup_pc p t) read_timeout)%list.
+Proof. exact AdapterRecvEquiv.tr_adapter_Recv_equiv. Qed.
+Theorem C08_source_recv_lookup_is_step : forall s r rc, nth_error (recvs s) r = Some rc -> r_pc rc = RStart ->
+  step s (LLookup r) = Some {| table := table s; calls := calls s; recvs := upd r (set_rpc rc (lookup_pc (r_pkt rc) (table s))) (recvs s) |}.
+Proof. exact AdapterRecvEquiv.lookup_pc_is_step. Qed.
+Print Assumptions C08_source_recv_lookup.
+Print Assumptions C08_source_recv_lookup_is_step.
